@@ -209,7 +209,9 @@ func (s *ModelDiscoveryService) discoverConcurrently(ctx context.Context, endpoi
 		workerCount = len(endpoints)
 	}
 
-	eg, ctx := errgroup.WithContext(ctx)
+	// a plain group, not errgroup.WithContext: one endpoint's failure must not cancel the
+	// listing requests of the others (which would then be counted as failures of their own)
+	var eg errgroup.Group
 	eg.SetLimit(workerCount)
 
 	for _, ep := range endpoints {
